@@ -214,6 +214,11 @@ func Quiesce() {
 	time.Sleep(20 * time.Millisecond)
 }
 
+// MutexState reports, under the engine, whether the mutex (pass a *sync.Mutex or
+// *sync.RWMutex) is unlocked (0), read-locked (1) or write-locked (2). Natively the
+// state of a mutex cannot be observed: -1.
+func MutexState(m interface{}) int { return -1 }
+
 var resetHooks []func()
 
 // RegisterReset registers a function that restores process-global state a harness
